@@ -139,6 +139,10 @@ class CastMarshaller(AbstractMarshaller[T], tp.Generic[T]):
             val: The value to marshal.
         """
         cast = tp.cast("serdes.MarshalledValueT", self.origin(val))  # type: ignore[call-arg]
+        # (A user subclass of a primitive is written as the primitive it extends.)
+        for primitive in (bool, int, float):
+            if isinstance(cast, primitive):
+                return cast if cast.__class__ is primitive else primitive(cast)
         return cast
 
 
@@ -155,7 +159,9 @@ class ToStringMarshaller(AbstractMarshaller[T], tp.Generic[T]):
         Args:
             val: The value to marshal.
         """
-        return str(val)
+        text = str(val)
+        # (`str()` hands back whatever `__str__` returns: a subclass instance if it returns itself.)
+        return text if text.__class__ is str else str.__str__(text)
 
 
 StringMarshaller = ToStringMarshaller[str]
@@ -184,6 +190,9 @@ class EnumMarshaller(AbstractMarshaller[EnumT], tp.Generic[EnumT]):
         Args:
             val: The enum instance to marshal.
         """
+        # (Any object may have a `value`: only a member of the enumeration is written as its own.)
+        if not isinstance(val, self.origin):
+            raise TypeError(f"{val!r} is not a member of {self.t!r}")
         return val.value
 
 
@@ -199,6 +208,8 @@ class PatternMarshaller(AbstractMarshaller[PatternT]):
         Args:
             val: The pattern to marshal.
         """
+        if not isinstance(val, re.Pattern):
+            raise TypeError(f"{val!r} is not a compiled pattern")
         return val.pattern
 
 
